@@ -289,7 +289,7 @@ class Fn:
             ln = self.reg.get(sig)
             if ln is None:
                 raise Unsupported("call to untranslated " + sig)
-            parts = [self.ex(a) for a in args]
+            parts = self.call_args(args)
             fvs = set().union(*[p[1] for p in parts])
             argl = " ".join(p[0] for p in parts)
             self.ub.append(("(%s_ub %s)" % (ln, argl), fvs))
@@ -327,7 +327,32 @@ class Fn:
                     out.append(self.env[nm + "#%d" % i])
                     i += 1
                 return out
-        raise Unsupported("aggregate value that is not a parameter/local")
+        # any other aggregate-valued expression (a temporary `year_month{y, m}`, a local bound to a call result, a call):
+        # its value is a Lean tuple; the components are its projections
+        cls = short(qtype(obj))
+        if cls not in AGG:
+            raise Unsupported("aggregate value that is not a parameter/local")
+        if obj["kind"] in ("CXXTemporaryObjectExpr", "CXXConstructExpr", "InitListExpr", "CXXFunctionalCastExpr") and \
+                len(obj.get("inner", [])) == len(AGG[cls]) and not (len(AGG[cls]) == 1):
+            return [self.ex(x) for x in obj["inner"]]
+        e, fv, _ = self.ex(obj)
+        n = len(AGG[cls])
+        projs = [".1"] if n == 1 else [".2" * i + ".1" for i in range(n - 1)] + [".2" * (n - 1)]
+        return [("%s%s" % (e, pr), set(fv), False) for pr in projs]
+
+    def call_args(self, args):
+        """arguments of a call to a translated function: aggregate arguments are passed component-wise (as the callee's
+        parameters are declared)"""
+        parts = []
+        for a in args:
+            b = a
+            while b["kind"] in ("ImplicitCastExpr", "ParenExpr", "MaterializeTemporaryExpr", "ExprWithCleanups", "CXXBindTemporaryExpr"):
+                b = b["inner"][0]
+            if short(qtype(b)) in AGG:
+                parts += self.agg_components(b)
+            else:
+                parts.append(self.ex(a))
+        return parts
 
     def binop(self, op, n, l, r, force_cmp=False):
         a, fa, ba = self.ex(l)
@@ -376,7 +401,7 @@ class Fn:
         ln = "%s_%s" % (self.name, lv)
         ps = sorted(fv)
         self.defs.append((ln, ps, e, isb))
-        self.env[v] = (lv, {lv}, isb)
+        self.env[v] = (lv, {lv}, False if isinstance(isb, tuple) else isb)
         self.order.append((lv, ln, ps))
 
     def body(self, stmts):
@@ -406,6 +431,8 @@ class Fn:
                     self.tables[d["name"]] = vals
                     continue
                 e, fv, b = self.ex(init)
+                if short(qtype(d)) in AGG:              # a local aggregate: a tuple-valued definition
+                    b = ("agg", len(AGG[short(qtype(d))]))
                 self.bind(d["name"], e, fv, b)
             return self.body(rest)
         if k == "CompoundAssignOperator":
@@ -549,7 +576,8 @@ class Fn:
             res = self.body(comp.get("inner", []))
         out = []
         for ln, ps, e, isb in self.defs:
-            out.append("def %s %s : %s :=\n  %s" % (ln, " ".join("(%s : Int)" % p for p in ps), "Bool" if isb else "Int", e))
+            ty = " × ".join(["Int"] * isb[1]) if isinstance(isb, tuple) else ("Bool" if isb else "Int")
+            out.append("def %s %s : %s :=\n  %s" % (ln, " ".join("(%s : Int)" % p for p in ps), ty, e))
         lets = "".join("  let %s := %s %s\n" % (v, ln, " ".join(ps)) for v, ln, ps in self.order)
         pl = " ".join("(%s : Int)" % p for p in params)
         out.append("def %s %s :=\n%s  %s" % (self.name, pl, lets, res[0]))
